@@ -84,6 +84,7 @@ type Run struct {
 	stop     bool
 	lastRes  StepResult
 	digests  []string
+	nodeRestartsSeen int
 	maxSteps int
 }
 
@@ -207,7 +208,9 @@ func NewRunAt(a *App, name string, seed int64, params types.Params, mon *Mon, st
 // through the application's BeginBlock / EndBlock / Commit; a is not used then.
 func NewRunOpt(a *App, name string, seed int64, params types.Params, mon *Mon, start int64, commit bool) *Run {
 	if commit {
+		no := a != nil && a.noNodeRestart
 		a = NewAppAt(start)
+		a.noNodeRestart = no
 	}
 	a.startAt = start
 	w := a.NewWorld(params)
@@ -295,6 +298,8 @@ func (r *Run) after(st Step, msg sdk.Msg, res StepResult) {
 		r.digests[len(r.digests)-1] += ":" + hash
 		r.pre = r.w.TakeSnap()
 		r.mon.stats.Hits["C20/app-hash-formed"]++
+		r.mon.stats.Hits["C20/node-restarts"] = r.mon.stats.Hits["C20/node-restarts"] - r.nodeRestartsSeen + r.w.nodeRestarts
+		r.nodeRestartsSeen = r.w.nodeRestarts
 		// the committed block is now what a node serves: let the repository's client code find
 		// the requests of this block again from their IDs
 		checkClientRecovery(r.mon, sc)
